@@ -22,7 +22,8 @@ ASSUMPTIONS = [
 ]
 MIN_NONTRIVIAL = {"quick": 8, "thorough": 40}
 SERVICE_CLASSES = [("streams", None), ("hammer-same-row", None), ("mixed", ["writer"]), ("mixed", ["reader"]), ("idle", None),
-                   ("cold-rows", None), ("row-conflict", None), ("bank-sweep", None)]
+                   ("cold-rows", None), ("row-conflict", None), ("bank-sweep", None), ("one-bank-row-miss", ["reader"]),
+                   ("one-bank-row-miss", ["writer"]), ("one-bank-row-miss", None)]
 
 # rate points: (module, rate, speedgrade, fine refresh mode, target integer cycles)
 RATE_POINTS = [
@@ -61,6 +62,12 @@ def cases(tier, seed):
             zq = True
         wl = {"class": cls, "nops": 100000, "master_mode": "fifo", "hot_rows": 3, "hot_cols": 2, "wr_frac": 0.5,
               "victim_ops": 100000, "gap_scale": 0.3}
+        if cls == "one-bank-row-miss":
+            # saturating single-bank traffic in which every access opens another row
+            wl.update({"class": "cold-rows", "hot_banks": 1, "gap_scale": 0.0, "dense": True})
+        if cls in ("one-bank-row-miss", "row-conflict", "cold-rows") and mem["kind"] == "synthetic":
+            tras = r.randint(4, 9)
+            mem["timing"].update(tRAS=tras, tRC=tras + mem["timing"]["tRP"])
         if roles:
             wl["port_roles"] = roles
         if cls == "idle":
